@@ -58,6 +58,12 @@ def run(rep, tier):
                         cases.append((js, cname, layout, "case_cxof", (a, nm, cl, 9, 33, fixed),
                                       "cxof%s name %s custom %d declared %d" % (sfx, "NULL" if nm is None else len(nm), cl, fixed),
                                       "ascon_xof%s_init_custom" % sfx))
+    # structural, all lengths: no size_t length loses its upper bits on the way to a bound or an address
+    from . import widths
+    rep.rule("C03.D2", "length arithmetic keeps the full width of size_t (no 32-bit mask or unguarded narrowing before control/addressing)")
+    for js, cname, layout, maxs, units in prep:
+        widths.rule(rep, "C03.D2", modes.load_module(js), cname, files=("/src/hash/", "/src/core/"))
+    widths.control(rep, "C03.D2")
     for d in modecheck.run_cases("C03", rid, tier, cases, None):
         rep.merge(d)
     rep.floor_discharged(rid, int(0.9 * len(cases)))
